@@ -43,6 +43,14 @@ func main() {
 		fmt.Fprintf(os.Stderr, "gntranslate: %v\n", err)
 		os.Exit(1)
 	}
+	codecFiles, err := translateCodec(*repo)
+	if err != nil {
+		fmt.Fprintf(os.Stderr, "gntranslate: %v\n", err)
+		os.Exit(1)
+	}
+	for name, content := range codecFiles {
+		files[name] = content
+	}
 	for name, content := range files {
 		if err := writeIfChanged(filepath.Join(*out, name), []byte(content)); err != nil {
 			fmt.Fprintf(os.Stderr, "gntranslate: %v\n", err)
